@@ -94,6 +94,17 @@ SAME_BLOCK = {"cfg": {"nv": False, "transp": False, "maxq": 5}, "events": [
     {"k": "compile", "vals": {"a": 200}, "same_block": True}, {"k": "commit"}]}
 
 
+# a handle read, then a PRE-COMPILED block rewrites that entry / a live register, then read again
+REREAD = {"cfg": {"nv": False, "transp": False, "maxq": 5}, "events": [
+    {"k": "new"}, {"k": "meas", "h": 0, "mode": "array", "inplace": True}, {"k": "newreg", "init": 5},
+    {"k": "flush"}, {"k": "read", "t": "f", "i": 0}, {"k": "read", "t": "r", "i": 0},
+    {"k": "fadd", "f": 0, "v": 3}, {"k": "radd", "r": 0, "v": 1},
+    {"k": "rot", "h": 0, "axis": "X", "n": {"t": "a"}, "d": 2},
+    {"k": "compile", "vals": {"a": 7}}, {"k": "commit"},
+    {"k": "read", "t": "f", "i": 0}, {"k": "read", "t": "r", "i": 0},
+    {"k": "radd", "r": 0, "v": 2}, {"k": "flush"}, {"k": "read", "t": "r", "i": 0}]}
+
+
 def run(ctx):
     from harness import precompile as H
     res = Result()
@@ -118,6 +129,8 @@ def run(ctx):
         res.count("cfg:%s%s" % ("nv" if cfg["nv"] else "generic", "+transp" if cfg["transp"] else ""))
         for st in prog["events"]:
             res.count("event:" + st["k"])
+        if any(st["k"] == "radd" for st in prog["events"]):
+            res.count("live register (new_register) modified by a later block")
         flat = [b for st in prog["events"] for b in [st] + list(st.get("steps", []))]
         has_t = any(isinstance(st.get("n"), dict) for st in flat)
         names = {st["n"]["t"] for st in flat if isinstance(st.get("n"), dict)}
@@ -152,6 +165,9 @@ def run(ctx):
             if rp["outstanding"] == 0 and rp["bk"] != rd["bk"]:
                 # (while a compiled subroutine is uncommitted only the model is compared strictly)
                 bad = ("builder bookkeeping differs " + where, {"P": rp["bk"], "D": rd["bk"]})
+            elif rp["read"] != rd["read"]:
+                bad = ("the host reads a different value through a handle " + where,
+                       {"P": rp["read"], "D": rd["read"], "handle": prog["events"][i]})
             elif rp["handles"] != rd["handles"]:
                 bad = ("qubit handles differ " + where, {"P": rp["handles"], "D": rd["handles"]})
             elif rp["note"]:
@@ -239,6 +255,8 @@ def run(ctx):
     res.samples.append({"prog": F7_WITNESS, "futures": P["futures"], "msgs": len(P["msgs"] or [])})
     P, D = one(INTERLEAVED, "tpl.corpus")
     P, D = one(REUSE, "tpl.corpus")
+    P, D = one(REREAD, "tpl.corpus")
+    res.samples.append({"prog": REREAD, "reads": [r["read"] for r in P["events"] if r["read"] is not None]})
     P, D = one(SAME_BLOCK, "tpl.corpus")
     P, D = one(dict(SAME_BLOCK, cfg={"nv": True, "transp": True, "maxq": 3}), "tpl.corpus")
     res.samples.append({"prog": REUSE, "msgs": len(P["msgs"] or [])})
